@@ -104,6 +104,9 @@ def run(kind, root='/repo'):
                 print('%s %s FALSE-ALARM %s-%s %s: %s' % (kind, pid, new[0].prop, new[0].clause, new[0].unit, new[0].what[:110]))
                 for o in new[1:4]:
                     print('      also %s-%s %s: %s' % (o.prop, o.clause, o.unit, o.what[:90]))
+            elif r.errors:
+                bad += 1
+                print('%s %s ANALYSIS-ERROR %s' % (kind, pid, r.errors[0][:160]))
             else:
                 print('%s %s silent' % (kind, pid))
         except AnalysisError as e:
